@@ -23,3 +23,46 @@ Definition run_str_read (arg : V) : V :=
   of_option vints EValue (str_read w (zs_of (vnth 1 arg))).
 Definition run_cp_enc (arg : V) : V := of_option VI EValue (cp_enc (vint arg)).
 Definition run_cp_dec (arg : V) : V := of_option VI EValue (cp_dec (vint arg)).
+
+(* --- block codecs (C01, C02, C05, C06, C12) --- *)
+From Model Require Export Segments Blocks.
+
+Definition lin_junk (a b : Z) : Z -> Z := fun off => (a * off + b) mod 256.
+
+(* [ty; format; v] *)
+Definition run_enc (arg : V) : V :=
+  match block_fmt (vint (vnth 0 arg)) (vint (vnth 1 arg)) with
+  | None => fail ENotImpl
+  | Some f => of_option vints EValue (enc f (vnth 2 arg))
+  end.
+(* [ty; format; v; a; b] : the free encoder with junk oracle (a*off+b) mod 256 *)
+Definition run_encj (arg : V) : V :=
+  match block_fmt (vint (vnth 0 arg)) (vint (vnth 1 arg)) with
+  | None => fail ENotImpl
+  | Some f => of_option vints EValue
+                (encj f (lin_junk (vint (vnth 3 arg)) (vint (vnth 4 arg))) 0 (vnth 2 arg))
+  end.
+(* [ty; format; bytes] -> [v; consumed] *)
+Definition run_dec (arg : V) : V :=
+  match block_fmt (vint (vnth 0 arg)) (vint (vnth 1 arg)) with
+  | None => fail ENotImpl
+  | Some f =>
+      let bs := zs_of (vnth 2 arg) in
+      match dec f bs with
+      | Some (v, rest) => ok (VL [v; VI (zlength bs - zlength rest)])
+      | None => fail EValue
+      end
+  end.
+Definition run_wfb (arg : V) : V :=
+  match block_fmt (vint (vnth 0 arg)) (vint (vnth 1 arg)) with
+  | None => fail ENotImpl
+  | Some f => ok (vbool (wfb f (vnth 2 arg)))
+  end.
+Definition run_size (arg : V) : V :=
+  match block_fmt (vint (vnth 0 arg)) (vint (vnth 1 arg)) with
+  | None => fail ENotImpl
+  | Some f => ok (VI (size f (vnth 2 arg)))
+  end.
+(* frames -> segment table [[start; count]; ...] *)
+Definition run_chunks (arg : V) : V :=
+  ok (VL (map seg_entry (chunks (vlist arg) 0))).
